@@ -59,6 +59,11 @@ var c13Ext = []extVariant{
 	{"permessage-deflate; unknown_param", false, false, false, false},
 	{"permessage-deflate; server_no_context_takeover; server_no_context_takeover", true, true, false, true},
 	{"permessage-deflate; server_max_window_bits=99", true, true, false, false},
+	// several header lines (separated by \n here): every line counts
+	{"permessage-deflate\nx-custom-mux", false, false, false, false},
+	{"permessage-deflate\npermessage-deflate; client_max_window_bits=8", false, false, false, false},
+	{"x-custom-mux\npermessage-deflate", false, false, false, false},
+	{"permessage-deflate; server_no_context_takeover\nunknown-ext; a=b", false, false, false, true},
 }
 
 func enumC13(tier string) [][]uint32 {
@@ -231,7 +236,9 @@ func runC13(r *Run) {
 			resp.WriteString("Sec-WebSocket-Protocol: other\r\n")
 		}
 		if ev.val != "" {
-			fmt.Fprintf(&resp, "Sec-WebSocket-Extensions: %s\r\n", ev.val)
+			for _, line := range strings.Split(ev.val, "\n") {
+				fmt.Fprintf(&resp, "Sec-WebSocket-Extensions: %s\r\n", line)
+			}
 		}
 		if status != 101 && status != 204 {
 			resp.WriteString("Content-Length: 5\r\n\r\nnope!")
